@@ -87,13 +87,15 @@ def build(profile="dev", features=(), kind="main", quiet=True):
     return dest
 
 
-def miri_cmd(features=()):
+def miri_cmd(features=(), release=False):
     """Command prefix + env to run the probe under Miri."""
     ensure_lock()
     env = _env()
     env["CARGO_TARGET_DIR"] = os.path.join(BUILD, "miri")
     cmd = ["cargo", "+nightly", "miri", "run", "--offline", "--manifest-path",
            os.path.join(DRIVER, "Cargo.toml")]
+    if release:
+        cmd.append("--release")
     if features:
         cmd += ["--features", ",".join(sorted(features))]
     return cmd, env
